@@ -14,7 +14,7 @@ bind: the harness renders every vector under 16 argument shapes and runs every p
       every recorded probe against SandboxTrace: the observed event set of a sandboxed configuration is empty; the
       unsandboxed control must show every capability of every known primitive (else the probes are blind -> exit 2)
 """
-import json, os, subprocess
+import json, os, subprocess, time
 import vlib, flow
 
 PROP = "C08"
@@ -55,6 +55,7 @@ def run():
     zygo = _build_zygo()
     thorough = vlib.tier() == "thorough"
     upath, u = _universe(zv, zygo)
+    vlib.log("harness and cmd/zygo built, universe of %d names dumped (%.0fs)" % (len(u["names"]), time.time() - vlib.T0))
     vectors = os.path.join(vlib.scratch(), "vectors.ndjson")
     menv = {"VERIF_UNIVERSE": upath}
     venv = dict(menv, VERIF_VECTORS=vectors, VERIF_SB_ALLROUTES="1" if thorough else "0")
@@ -77,7 +78,9 @@ def run():
     vlib.log("model: SandboxClosed %s on this universe; candidates %s" % ("REFUTED" if refuted else "holds", predicted or "none"))
 
     trace = os.path.join(vlib.scratch(), "sandbox.ndjson")
-    vlib.run_zv(zv, "sandbox", ["-in", vectors, "-zygo", zygo, "-universe", upath, "-repo", vlib.REPO], trace, timeout=2400)
+    t1 = time.time()
+    n = vlib.run_zv(zv, "sandbox", ["-in", vectors, "-zygo", zygo, "-universe", upath, "-repo", vlib.REPO], trace, timeout=2400)
+    vlib.log("sandbox: %d vectors from TLC, %d cases recorded in %.0fs" % (len(vecs), n, time.time() - t1))
     env = {"VERIF_DEVS": _devs(), "VERIF_UNIVERSE": upath}
     cases, v = flow.validate(out, "sandbox", "SandboxTrace.tla", "SandboxTrace.cfg", trace, zv,
                              replay_args=["-zygo", zygo, "-repo", vlib.REPO], env=env, timeout=2400)
